@@ -29,11 +29,11 @@ ASSUMPTIONS = ["the closure walk checks name resolution of unexecuted paths, not
 BUDGET_S = {"quick": 150, "thorough": 1500}
 CASES_PER_PROCESS = {"quick": 500, "thorough": 1200}
 MIN_EVENTS = {"quick": {"evaluations": 4000, "functions_walked": 5000, "error_paths_provoked": 20000, "identity_checks": 1500},
-              "thorough": {"evaluations": 50000, "functions_walked": 60000, "error_paths_provoked": 300000, "identity_checks": 20000}}
+              "thorough": {"evaluations": 10000, "functions_walked": 15000, "error_paths_provoked": 60000, "identity_checks": 4000}}
 
 
 def n_cases(tier):
-    return 5000 if tier == "quick" else 60000
+    return 5000 if tier == "quick" else 24000
 
 
 def worker_setup(tier, rec):
